@@ -31,7 +31,7 @@ R.contract("PeerConnection.__dispatch_message#gate", params={"self": "PeerConnec
                      "self.g_handled == old(self.g_handled) + [msg])" % (READY, READY_WAITING_DWA, DISCONNECTING)),
                     ("otherwise-handed-to-the-node-exactly-once",
                      "self.g_handled == old(self.g_handled) or self.g_handled == old(self.g_handled) + [msg]")],
-           raises=[], ghost_modifies=["self.g_handled"], props=["C06", "C08"])
+           raises=[], ghost_modifies=["self.g_handled"], props=["C06", "C08", "C09"])
 
 
 # ---- the outcome cases of the capabilities exchange --------------------------------------------------------------
@@ -182,7 +182,7 @@ R.contract("Node.receive_cea", params={"self": "Node", "conn": "PeerConnection",
            raises=[Raise("Exception", "True", "may")],
            ensures_exc={"Exception": [("nothing-sent-when-failing", "nothing_sent(conn)")]},
            ghost_modifies=["conn.g_close_calls", "conn.g_close_reason"],
-           modifies=_READY_MODS, props=["C06"])
+           modifies=_READY_MODS, props=["C06", "C12", "C13"])
 for _i in (0,):
     R.loop("Node.receive_cea", _i,
            invariants=[("auth-so-far", "setv(cer_auth_apps) == set_union(setv(some(message.auth_application_id)), "
